@@ -19,6 +19,7 @@ THEOREMS = [
     "CM.Args.C16_callTarget_args",
     "CM.Args.C01_replaceArgs_wf",
     "CM.Args.C07_replaceArgs_idem_single",
+    "CM.Args.parenGens_others",
 ]
 RULE = (
     "argument editor: generated argument lists (positional / keyword / * / ** arguments in any order, 0-5 arguments, nested calls as "
@@ -71,6 +72,13 @@ def token_delta(before: str, after: str):
     return list((cb - ca).elements()), list((ca - cb).elements())
 
 
+def unparen(a):
+    """an argument up to the parentheses a bare generator receives once it has a neighbour (the value itself is untouched)"""
+    if a.get("gen"):
+        return dict(a, gen=False, val="(" + a["val"] + ")")
+    return a
+
+
 def corr(ctx):
     for rq, im, ans in argscorr.corr(ctx, 300, 2500):
         # oracle: arguments the specification does not name are preserved in order
@@ -79,7 +87,7 @@ def corr(ctx):
             keep = lambda l: [a for a in l if a["kw"] is None or a["kw"] not in ns]
             if keep(im["args"]) != keep(rq["args"]):
                 ctx.fail({"kind": "replace-args-touches-others"}, f"replace_args altered an argument the specification does not name: {im['src']} -> {im['rendered']}", {"request": rq, "impl": im})
-        elif im["args"][: len(rq["args"])] != rq["args"] or len(im["args"]) != len(rq["args"]) + 1:
+        elif [unparen(a) for a in im["args"][: len(rq["args"])]] != [unparen(a) for a in rq["args"]] or len(im["args"]) != len(rq["args"]) + 1:
             ctx.fail({"kind": "add-arg-touches-others"}, f"add_arg_to_call altered existing arguments: {im['src']} -> {im['rendered']}", {"request": rq, "impl": im})
 
 
